@@ -53,7 +53,7 @@ CHECKS["C29"] = ("property-based differential testing of out-of-fragment scripts
                  REF, "DESIGN.md §4 C29")
 CHECKS["C30"] = ("property-based testing with a time-based oracle (tiny qualifying instances x generated configurations, 200x slack, three confirmations)",
                  "Weak by nature: testing observes only 'no answer within T' on tiny instances that the default engine and both references decide in well under a second; three time-outs with 200x slack are reported. Exploration only; liveness cannot be established.",
-                 "wall-clock (T = 20 s quick / 60 s thorough, factor 200); z3/cvc5 qualify instances", "DESIGN.md §4 C30, §7")
+                 "wall-clock (T = 12 s quick / 60 s thorough, factor 200); z3/cvc5 qualify instances", "DESIGN.md §4 C30, §7")
 CHECKS["C15"] = ("in-process property-based testing (rapidcheck register machine + exhaustive boundary pairs) against a GMP reference model, ASan/UBSan on",
                  "FastRational is compared with mpq_class/mpz_class after every step of generated operation sequences and on all pairs of a 378-value boundary set x 22 operations; representation invariants and hashes included. Exploration (the boundary set is enumerated exhaustively).",
                  "GMP as the exact model; sanitizer build of the library", "DESIGN.md §4 C15")
